@@ -1,6 +1,8 @@
 use std::{env, fs::File, io::Write, path::Path};
 
 fn main() {
+    // verification hooks guard (off by default); declared so that rustc's check-cfg stays quiet
+    println!("cargo:rustc-check-cfg=cfg(hbs_lms_verif)");
     let out_dir = env::var("OUT_DIR").expect("No out dir");
     let dest_path = Path::new(&out_dir).join("constants.rs");
     let mut f = File::create(dest_path).expect("Could not create file");
